@@ -16,6 +16,45 @@ from .sym import Sym
 
 QUERY_LOG = []   # every query discharged in this process: dict(name, verdict, seconds, logic, nvars, nterms)
 
+# second-solver cross-check (thorough tier): a sample of the decided queries is written out as SMT-LIB2 and handed to the cvc5 binary;
+# a verdict that contradicts z3's is a harness error (the encoding is the same text, so this guards the solver, not the encoding)
+CROSS = dict(enabled=False, every=7, limit=60, seen=0, sampled=0, agree=0, unknown=0, disagree=[], seconds=0.0)
+
+
+def _cross_check(solver, verdict, name):
+    import os
+    import shutil
+    import subprocess
+    import tempfile
+    c = CROSS
+    c["seen"] += 1
+    if not c["enabled"] or verdict not in ("sat", "unsat") or c["sampled"] >= c["limit"] or c["seen"] % c["every"]:
+        return
+    exe = shutil.which("cvc5")
+    if exe is None:
+        return
+    t0 = time.time()
+    text = "(set-logic ALL)\n" + solver.to_smt2()
+    with tempfile.NamedTemporaryFile("w", suffix=".smt2", delete=False) as fp:
+        fp.write(text)
+        fn = fp.name
+    try:
+        r = subprocess.run([exe, "--lang", "smt2", "--tlimit=4000", fn], capture_output=True, text=True, timeout=20)
+        out = (r.stdout or "").strip().splitlines()
+        other = out[0].strip() if out else "unknown"
+    except Exception:
+        other = "unknown"
+    finally:
+        os.unlink(fn)
+    c["sampled"] += 1
+    c["seconds"] += time.time() - t0
+    if other not in ("sat", "unsat"):
+        c["unknown"] += 1
+    elif other == verdict:
+        c["agree"] += 1
+    else:
+        c["disagree"].append(dict(name=name, z3=verdict, cvc5=other))
+
 
 def reset_log():
     del QUERY_LOG[:]
@@ -173,6 +212,8 @@ def check(constraints, name="query", timeout_ms=20000, enc=None, logic="QF_NRA",
     dt = time.time() - t0
     QUERY_LOG.append(dict(name=name, verdict=verdict, seconds=round(dt, 4), logic=logic,
                           nvars=len(enc.zvars) if enc else None, nconstraints=len(constraints)))
+    if CROSS["enabled"] and tactic is None:
+        _cross_check(s, verdict, name)
     return verdict, env
 
 
